@@ -4,11 +4,13 @@ mod actors;
 mod checks;
 mod driver;
 mod endpoint;
+mod patht;
 mod prng;
 mod refmodel;
 mod scenario;
 mod scenarios;
 mod sim;
+mod tls;
 mod world;
 
 #[global_allocator]
